@@ -12,8 +12,12 @@ VENV_PY = "/venv/bin/python"
 
 
 def value_level(s: Sort):
-    if isinstance(s, (TIntS, TBoolS, TStrS, TAbs)):
+    if isinstance(s, (TIntS, TBoolS, TStrS, TAbs, TUnionS)):
         return True
+    if isinstance(s, TKDict):
+        return all(value_level(x) for x in s.keys.values())
+    if isinstance(s, TUnionRec):
+        return False  # only as results
     if isinstance(s, (TList, TOpt)):
         return value_level(s.elem if isinstance(s, TList) else s.inner)
     if isinstance(s, TRec):
@@ -57,6 +61,37 @@ def decode(m, t, s: Sort, depth=0):
 
 def from_typed(j, s: Sort):
     "typed json -> concrete Val of sort s"
+    if isinstance(s, TUnionS):
+        from .ops import coerce
+        if j["t"] == "none":
+            return coerce(VNone(), s)
+        if j["t"] == "str":
+            return coerce(VStr(j["v"]), s)
+        if j["t"] == "bool":
+            return coerce(VBool(bool(j["v"])), s)
+        if j["t"] == "int":
+            return coerce(VInt(int(j["v"])), s)
+        raise Unsupported("union value %r" % (j,))
+    if isinstance(s, TKDict):
+        from .ops import default_term
+        ts = []
+        for f, fs in s.fields:
+            if f.startswith("p_"):
+                ts.append(z3.BoolVal(f[2:] in j["v"]))
+            elif f.startswith("v_"):
+                k = f[2:]
+                ts.append(from_typed(j["v"][k], fs).t if k in j["v"] else default_term(fs))
+            elif f == "other":
+                ts.append(z3.BoolVal(any(k not in s.keys for k in j["v"])))
+            else:
+                oth = [k for k in j["v"] if k not in s.keys]
+                ts.append(z3.StringVal(oth[0] if oth else "__none__"))
+        return VRec(s.mk(*ts), s)
+    if isinstance(s, TUnionRec):
+        from .ops import coerce
+        if j["t"] != "rec" or j["cls"] not in s.members:
+            raise Unsupported("union member %r" % (j.get("cls"),))
+        return coerce(from_typed(j, s.members[j["cls"]]), s)
     if isinstance(s, TIntS):
         return VInt(int(j["v"]))
     if isinstance(s, TBoolS):
@@ -182,12 +217,16 @@ def check_concrete(run, ex, c, args, globs, r, logical=None):
 
     if r["outcome"] == "raise":
         exc = r["exc"]
+        mro = r.get("mro", [exc])
+        for e_, cond in c.raises_only_if.items():
+            if e_ in mro and not holds(cond, pre.copy(), env, None):
+                return False, "real function raised %s on an input where the contract's raises_only_if condition is false" % exc
         for e_, cond in c.raises.items():
-            if exc == e_ or exc in r.get("mro", []) and e_ in r.get("mro", []):
-                if holds(cond, pre.copy(), env, None):
+            if e_ in mro:
+                if not c.strict or holds(cond, pre.copy(), env, None):
                     return True, "raised %s as the contract allows" % exc
                 return False, "real function raised %s on an input where the contract's raise condition is false" % exc
-        if exc in c.may_raise:
+        if any(e_ in mro for e_ in c.may_raise):
             return True, "may raise"
         return False, "real function raised %s, which the contract does not allow" % exc
     for e_, cond in c.raises.items():
@@ -280,6 +319,24 @@ ABS_POOL = ["A", "B", "C"]
 def gen_value(s: Sort, rnd, pools, depth=0, name=None):
     if name is not None and name in pools:
         return rnd.choice(pools[name])
+    if isinstance(s, TUnionS):
+        return rnd.choice([{"t": "int", "v": rnd.choice([0, 1, 2])}, {"t": "str", "v": rnd.choice(["0", "1", "x"])}])
+    if isinstance(s, TKDict):
+        shapes = pools.get("kdict_shapes")
+        if shapes:
+            shape = rnd.choice(shapes)  # (fixed items dict, optional keys list)
+            v = {k: x for k, x in shape[0].items()}
+            for k in shape[1]:
+                if rnd.random() < 0.5:
+                    v[k] = gen_value(s.keys[k], rnd, pools, depth + 1, name="MD." + k) if k in s.keys else {"t": "str", "v": "zzz"}
+            for k in shape[2] if len(shape) > 2 else []:
+                v[k] = gen_value(s.keys[k], rnd, pools, depth + 1, name="MD." + k)
+            return {"t": "kdict", "v": v}
+        v = {}
+        for k, so in s.keys.items():
+            if rnd.random() < 0.3:
+                v[k] = gen_value(so, rnd, pools, depth + 1, name="MD." + k)
+        return {"t": "kdict", "v": v}
     if isinstance(s, TIntS):
         return {"t": "int", "v": rnd.choice(pools.get("int", [-1, 0, 1, 2, 3]))}
     if isinstance(s, TBoolS):
@@ -349,7 +406,11 @@ def concrete_search(run, c, ex, n_cases, seed):
     except Exception:
         return False, "bounded search runner failed: " + (p.stderr or p.stdout)[-500:], None, 0
     evaluated = 0
+    import time as _t
+    deadline = _t.time() + (120 if n_cases <= 200 else 900)
     for case, r in zip(cases, outs):
+        if _t.time() > deadline:
+            break
         if r.get("outcome") == "error":
             continue
         try:
